@@ -3,6 +3,8 @@ package main
 import (
 	"crypto/sha256"
 	"fmt"
+	stdhash "hash"
+	"math/big"
 	"strings"
 
 	fiatshamir "github.com/consensys/gnark-crypto/fiat-shamir"
@@ -28,20 +30,56 @@ func fsErr(err error) string {
 		return "err:computed"
 	case strings.Contains(err.Error(), "previous challenge"):
 		return "err:prev"
+	// a Write refused by the hasher (mimc.digest.Write: ragged length / non-canonical element)
+	case strings.Contains(err.Error(), "invalid input length"), strings.Contains(err.Error(), "invalid fr.Element encoding"):
+		return "err:hash"
 	}
 	return "err:other"
 }
 
+var c15ConstCache = map[string]string{}
+
+// hash token: sha256 | mimc:<curve>:<consts,> | mimcle:<curve>:<consts,>  (constants re-checked against GetConstants())
+func c15Hasher(tok string) (stdhash.Hash, string) {
+	if tok == "sha256" {
+		return sha256.New(), ""
+	}
+	f := strings.Split(tok, ":")
+	if len(f) != 3 || (f[0] != "mimc" && f[0] != "mimcle") {
+		return nil, "bad-op"
+	}
+	m := mimcByName(f[1])
+	if m == nil {
+		return nil, "bad-op"
+	}
+	want, ok := c15ConstCache[m.name]
+	if !ok {
+		want = c14HexBigs(m.consts())
+		c15ConstCache[m.name] = want
+	}
+	if f[2] != want {
+		return nil, "bad-consts"
+	}
+	if f[0] == "mimcle" {
+		return m.newLE(), ""
+	}
+	return m.newH(), ""
+}
+
 // C15 <hash> <names,> ops…   ops: B:<name>:<val> | C:<name> | M:<k> (mutate k-th slice handed in/out)
 func execC15(a []string) string {
-	if len(a) < 2 || a[0] != "sha256" {
+	if len(a) < 2 {
 		return "bad-op"
+	}
+	h, bad := c15Hasher(a[0])
+	if bad != "" {
+		return bad
 	}
 	var names []string
 	for _, n := range strings.Split(a[1], ",") {
 		names = append(names, string(parseBytes(n)))
 	}
-	t := fiatshamir.NewTranscript(sha256.New(), names...)
+	t := fiatshamir.NewTranscript(h, names...)
 	var bufs [][]byte // every slice handed in (Bind) or out (ComputeChallenge), in op order
 	var outs []string
 	for _, op := range a[2:] {
@@ -78,6 +116,274 @@ func execC15(a []string) string {
 	return join(outs)
 }
 
+// ---------------------------------------------------------------- generation
+
+// c15Hash describes one hasher for generation: what ONE Write accepts is what matters for the value lattice
+type c15Hash struct {
+	tok   string   // hash token of the op line
+	block int      // 0: stream hash (any write accepted)
+	q     *big.Int // modulus of one block (block > 0)
+	le    bool
+}
+
+func (h *c15Hash) elem(v *big.Int) []byte {
+	b := make([]byte, h.block)
+	v.FillBytes(b)
+	if h.le {
+		for i, j := 0, len(b)-1; i < j; i, j = i+1, j-1 {
+			b[i], b[j] = b[j], b[i]
+		}
+	}
+	return b
+}
+
+// a canonical block (boundary values now and then)
+func (h *c15Hash) canon(r *rng) []byte {
+	switch r.intn(8) {
+	case 0:
+		return h.elem(new(big.Int).Sub(h.q, big.NewInt(1)))
+	case 1:
+		return h.elem(big.NewInt(0))
+	case 2:
+		return h.elem(big.NewInt(int64(1 + r.intn(255))))
+	}
+	return h.elem(r.bigBelow(h.q))
+}
+
+// a block whose value is ≥ q (refused by Write)
+func (h *c15Hash) noncanon(r *rng) []byte {
+	top := new(big.Int).Lsh(big.NewInt(1), uint(8*h.block))
+	switch r.intn(3) {
+	case 0:
+		return h.elem(h.q)
+	case 1:
+		return h.elem(new(big.Int).Sub(top, big.NewInt(1)))
+	}
+	v := r.bigBelow(new(big.Int).Sub(top, h.q))
+	return h.elem(v.Add(v, h.q))
+}
+
+func c15Cat(bs ...[]byte) []byte {
+	var out []byte
+	for _, b := range bs {
+		out = append(out, b...)
+	}
+	return out
+}
+
+// value of write-class c relative to the block size:
+// 0: empty  1: one byte  2: block-1 bytes  3: canonical block  4: non-canonical block  5: block+1 bytes
+// 6: two canonical blocks  7: canonical‖non-canonical  8: non-canonical‖canonical  9: 2·block+1 bytes
+// 10: a few bytes (< block)  11: three canonical blocks
+// accepted by a MiMC Write: 0 1 2 3 6 10 11; refused: 4 5 7 8 9
+const c15Classes = 12
+
+func (h *c15Hash) value(r *rng, c int) []byte {
+	if h.block == 0 { // stream hash: only the length matters
+		return r.bytes([]int{0, 1, 31, 32, 32, 33, 64, 64, 64, 65, 5, 96}[c])
+	}
+	S := h.block
+	switch c {
+	case 0:
+		return nil
+	case 1:
+		return r.bytes(1)
+	case 2:
+		return r.bytes(S - 1)
+	case 3:
+		return h.canon(r)
+	case 4:
+		return h.noncanon(r)
+	case 5:
+		return c15Cat(h.canon(r), r.bytes(1))
+	case 6:
+		return c15Cat(h.canon(r), h.canon(r))
+	case 7:
+		return c15Cat(h.canon(r), h.noncanon(r))
+	case 8:
+		return c15Cat(h.noncanon(r), h.canon(r))
+	case 9:
+		return c15Cat(h.canon(r), h.canon(r), r.bytes(1))
+	case 10:
+		return r.bytes(2 + r.intn(S-3))
+	}
+	return c15Cat(h.canon(r), h.canon(r), h.canon(r))
+}
+
+var c15Accepted = []int{0, 1, 2, 3, 6, 10, 11}
+var c15Refused = []int{4, 5, 7, 8, 9}
+
+// k distinct names; class as for values (short names are left-padded by MiMC, long ones must be canonical blocks)
+func (h *c15Hash) names(r *rng, k int, classes []int) []string {
+	names := make([]string, 0, k)
+	for len(names) < k {
+		i := len(names)
+		var n []byte
+		if classes[i] == 1 {
+			n = []byte{byte('a' + i)}
+		} else {
+			n = h.value(r, classes[i])
+		}
+		s := hexBytes(n)
+		dup := false
+		for _, o := range names {
+			dup = dup || o == s
+		}
+		if dup { // (empty name twice, or a random collision): fall back to a distinct short name
+			s = hexBytes([]byte{byte('n'), byte('a' + i)})
+		}
+		names = append(names, s)
+	}
+	return names
+}
+
+func c15Hashes() (sha *c15Hash, mimc []*c15Hash, mimcLE []*c15Hash) {
+	sha = &c15Hash{tok: "sha256"}
+	for mi := range mimcs {
+		m := &mimcs[mi]
+		f := fields[m.field]
+		consts := c14HexBigs(m.consts())
+		mimc = append(mimc, &c15Hash{tok: "mimc:" + m.name + ":" + consts, block: f.Bytes(), q: f.Q()})
+		mimcLE = append(mimcLE, &c15Hash{tok: "mimcle:" + m.name + ":" + consts, block: f.Bytes(), q: f.Q(), le: true})
+	}
+	return
+}
+
+func (h *c15Hash) emit(g *gen, names []string, ops []string) {
+	g.emit("C15 %s %s %s", h.tok, strings.Join(names, ","), join(ops))
+}
+
+// all histories of length 1..maxLen over the alphabet
+func c15Exhaustive(alphabet []string, maxLen int, f func([]string)) {
+	var rec func(prefix []string)
+	rec = func(prefix []string) {
+		if len(prefix) > 0 {
+			f(prefix)
+		}
+		if len(prefix) == maxLen {
+			return
+		}
+		for _, a := range alphabet {
+			rec(append(append([]string{}, prefix...), a))
+		}
+	}
+	rec(nil)
+}
+
+// bounded-exhaustive histories for a block hash: two names (short / one canonical block), an unknown name,
+// bound values short / canonical block / block+1 bytes (refused) / non-canonical block (refused), mutations
+func (h *c15Hash) genExhaustive(g *gen, maxLen int) {
+	na, nb, unk := hexBytes([]byte{'a'}), hexBytes(h.elem(big.NewInt(0x62))), hexBytes([]byte{'z'})
+	alphabet := []string{
+		"B:" + na + ":" + hexBytes(h.value(g.rng, 1)),
+		"B:" + na + ":" + hexBytes(h.value(g.rng, 3)),
+		"B:" + na + ":" + hexBytes(h.value(g.rng, 5)),
+		"B:" + nb + ":" + hexBytes(h.value(g.rng, 10)),
+		"B:" + nb + ":" + hexBytes(h.value(g.rng, 4)),
+		"B:" + unk + ":01",
+		"C:" + na, "C:" + nb, "C:" + unk,
+		"M:0", "M:1",
+	}
+	c15Exhaustive(alphabet, maxLen, func(ops []string) { h.emit(g, []string{na, nb}, ops) })
+}
+
+// the classes a per-write hash distinguishes, for every hasher:
+//   - several values bound to ONE challenge, every pair of write classes (accepted × accepted must chain as two
+//     writes, anything × refused must make the compute fail and leave the transcript as it was);
+//   - every name class (short = left-padded, one/two canonical blocks, refused ones) at position 0 and 1;
+//   - after a failed compute: recompute (same error), bind more, compute the next challenge (refused: err:prev),
+//     mutation of the slices handed in.
+func (h *c15Hash) genClasses(g *gen, reps int) {
+	r := g.rng
+	hb := func(b []byte) string { return hexBytes(b) }
+	for rep := 0; rep < reps; rep++ {
+		// pairs (and a triple) of bound values on one challenge, first and second position
+		for c1 := 0; c1 < c15Classes; c1++ {
+			for c2 := 0; c2 < c15Classes; c2++ {
+				names := h.names(r, 2, []int{1, 1})
+				pos := r.intn(2)
+				var ops []string
+				if pos == 1 {
+					ops = append(ops, "B:"+names[0]+":"+hb(h.value(r, c15Accepted[r.intn(len(c15Accepted))])), "C:"+names[0])
+				}
+				n := names[pos]
+				ops = append(ops, "B:"+n+":"+hb(h.value(r, c1)), "B:"+n+":"+hb(h.value(r, c2)))
+				if r.intn(3) == 0 {
+					ops = append(ops, "B:"+n+":"+hb(h.value(r, r.intn(c15Classes))))
+				}
+				if r.coin() {
+					ops = append(ops, fmt.Sprintf("M:%d", r.intn(len(ops))))
+				}
+				ops = append(ops, "C:"+n, "C:"+n)
+				if pos == 0 {
+					ops = append(ops, "B:"+names[1]+":"+hb(h.value(r, c15Accepted[r.intn(len(c15Accepted))])), "C:"+names[1], "C:"+names[0])
+				} else {
+					ops = append(ops, "C:"+names[0], "B:"+n+":01", "C:"+n)
+				}
+				h.emit(g, names, ops)
+			}
+		}
+		// name classes
+		for c1 := 0; c1 < c15Classes; c1++ {
+			for c2 := 0; c2 < c15Classes; c2++ {
+				names := h.names(r, 3, []int{c1, c2, 1})
+				ops := []string{
+					"C:" + names[1], // before its predecessor: a refused name is reported first (Go writes the name before the check)
+					"B:" + names[0] + ":" + hb(h.value(r, c15Accepted[r.intn(len(c15Accepted))])),
+					"C:" + names[0], "B:" + names[1] + ":" + hb(h.value(r, 2)), "B:" + names[1] + ":" + hb(h.value(r, 3)),
+					"C:" + names[1], "C:" + names[2], "C:" + names[0], "C:" + names[1],
+				}
+				h.emit(g, names, ops)
+			}
+		}
+	}
+}
+
+// seeded random long histories; values drawn from the write classes (mostly accepted ones for a block hash)
+func (h *c15Hash) genRandom(g *gen, n int) {
+	r := g.rng
+	for it := 0; it < n; it++ {
+		k := 1 + r.intn(4)
+		cl := make([]int, k)
+		for i := range cl {
+			switch r.intn(6) {
+			case 0:
+				cl[i] = r.intn(c15Classes)
+			case 1:
+				cl[i] = c15Accepted[r.intn(len(c15Accepted))]
+			default:
+				cl[i] = 1
+			}
+		}
+		names := h.names(r, k, cl)
+		nops := 1 + r.intn(24)
+		ops := make([]string, nops)
+		nb := 0
+		pRef := r.intn(3) // 0: no refused value in this history, else sometimes
+		for j := range ops {
+			nm := hexBytes(r.bytes(2))
+			if r.intn(8) != 0 {
+				nm = names[r.intn(k)]
+			}
+			switch r.intn(5) {
+			case 0, 1:
+				c := c15Accepted[r.intn(len(c15Accepted))]
+				if pRef != 0 && r.intn(6) == 0 {
+					c = c15Refused[r.intn(len(c15Refused))]
+				}
+				ops[j] = "B:" + nm + ":" + hexBytes(h.value(r, c))
+				nb++
+			case 2, 3:
+				ops[j] = "C:" + nm
+				nb++
+			default:
+				ops[j] = fmt.Sprintf("M:%d", r.intn(nb+1))
+			}
+		}
+		h.emit(g, names, ops)
+	}
+}
+
 func genC15(g *gen) {
 	g.emit("SHA256 -")
 	g.emit("SHA256 616263")
@@ -85,6 +391,7 @@ func genC15(g *gen) {
 		g.emit("SHA256 %s", hexBytes(g.rng.bytes(n)))
 	}
 	nameOf := func(i int) string { return hexBytes([]byte{byte('a' + i)}) }
+	// ---- SHA-256 (stream hash)
 	// bounded-exhaustive: k names, histories of length ≤ L over {B(name|unknown), C(name|unknown), M(k)}
 	maxLen := g.budget(4, 5)
 	for k := 1; k <= g.budget(3, 4); k++ {
@@ -143,5 +450,30 @@ func genC15(g *gen) {
 			}
 		}
 		g.emit("C15 sha256 %s %s", strings.Join(names, ","), join(ops))
+	}
+	sha, mimc, mimcLE := c15Hashes()
+	sha.genClasses(g, 1)
+	// ---- MiMC (a Write is a unit: left-padded if short, refused unless canonical blocks), 8 instances
+	for i, h := range mimc {
+		deep := h.block == 32 && i == 0 // bn254
+		switch {
+		case deep:
+			h.genExhaustive(g, g.budget(3, 4))
+		default:
+			h.genExhaustive(g, g.budget(2, 3))
+		}
+		h.genClasses(g, g.budget(1, 2))
+		if deep {
+			h.genRandom(g, g.budget(600, 4000))
+		} else {
+			h.genRandom(g, g.budget(150, 1000))
+		}
+		// LittleEndian option: the digest is still written big-endian, so the chained previous value can itself be refused
+		le := mimcLE[i]
+		le.genExhaustive(g, 2)
+		if deep || g.thorough() {
+			le.genClasses(g, 1)
+		}
+		le.genRandom(g, g.budget(60, 300))
 	}
 }
